@@ -23,6 +23,12 @@ def _str_keys_written(f: Func) -> Set[str]:
             for k in n.keys:
                 if isinstance(k, ast.Constant) and isinstance(k.value, str):
                     out.add(k.value)
+        if isinstance(n, ast.Call) and isinstance(n.func, ast.Attribute) and n.func.attr in ("update", "setdefault"):
+            for k in n.keywords:
+                if k.arg is not None:
+                    out.add(k.arg)
+            if n.func.attr == "setdefault" and n.args and isinstance(n.args[0], ast.Constant) and isinstance(n.args[0].value, str):
+                out.add(n.args[0].value)
     return out
 
 
@@ -382,7 +388,9 @@ def fmt(ctx: Ctx) -> List[Ob]:
         # every way to get past the refusal(s) has checked all five facts
         fl_ = [c for c in env.calls_in[ld] if norm(c.func).endswith("_from_list")]
         if len(fl_) == 1:
-            known = cond_texts(path_conds(ctx, ld, fl_[0]))
+            from .util import cond_texts_resolved
+
+            known = cond_texts_resolved(ctx, ld, fl_[0], path_conds(ctx, ld, fl_[0]), keep=[ov])
             need = {f"isinstance({ov}, dict)", f"'meta' in {ov}", f"'nodes' in {ov}", f"'$generator' in {ov}['meta']"}
             gen_ok = any(t.startswith("'nutree/' in") and "$generator" in t for t in known)
             ok = need <= known and gen_ok
@@ -437,7 +445,14 @@ def fmt(ctx: Ctx) -> List[Ob]:
         if len(ren) == 1:
             nk = ren[0][1]["$$nk"]
             nkv = [norm(v_) for v_ in reaching_values(ctx, f, ren[0][0], nk)]
-            ok = nkv == [f"{mapname}[{kv}]"] and any(p_ and norm(a_) == f"{kv} in {mapname}" for a_, p_ in path_conds(ctx, f, ren[0][0]))
+            in_map = any(p_ and norm(a_) == f"{kv} in {mapname}" for a_, p_ in path_conds(ctx, f, ren[0][0]))
+            # EAFP spelling: the renaming sits in the `else:` of `try: new = map[key] except KeyError: ...`
+            par_ = m.parent_of(ren[0][0])
+            if isinstance(par_, ast.Try) and any(ren[0][0] is x for x in par_.orelse) and any(h_.type is not None and norm(h_.type) == "KeyError" for h_ in par_.handlers) \
+                    and any(isinstance(x, ast.Subscript) and norm(x) == f"{mapname}[{kv}]" for st_ in par_.body for x in ast.walk(st_)):
+                in_map = True
+                nkv = [v_ for v_ in nkv if v_ != kv]
+            ok = f"{mapname}[{kv}]" in nkv and set(nkv) <= {f"{mapname}[{kv}]", kv} and in_map
             newkey_under_map = nk
         elif not ren and not find(f"{dname}.pop($$x)", lp):
             ok = False
@@ -613,7 +628,8 @@ def fmt(ctx: Ctx) -> List[Ob]:
             gets = [x for x in ast.walk(lp) if isinstance(x, ast.Call) and norm(x) == f"{iv}.get('data_id')"]
             ok = ok and all(not_after(ctx, fd, mc_, g_) for mc_ in mcs for g_ in gets)
             # the recursion runs on the child just created, with the item's children
-            ok = ok and any(v_ is adds[0] for v_ in reaching_values(ctx, fd, recs[0], recs[0].func.value)) and bool(recs[0].args) and RN(fd, recs[0], recs[0].args[0]) == f"{iv}.get('children')"
+            ok = ok and any(v_ is adds[0] for v_ in reaching_values(ctx, fd, recs[0], recs[0].func.value)) and bool(recs[0].args) \
+                and RN(fd, recs[0], recs[0].args[0]) in (f"{iv}.get('children')", f"{iv}['children']")
     pops = [c for c in ast.walk(fd.node) if isinstance(c, ast.Call) and isinstance(c.func, ast.Attribute) and c.func.attr in ("pop", "popitem", "clear", "update", "setdefault")
             and norm(c.func.value) in ([norm(lps[0].target)] if lps else [])]
     O(["C14"], fd, "from_dict only reads the caller's structure (no pop/update on the items)", not pops,
